@@ -189,3 +189,42 @@ package contracts
 //@ extern func (v *atomic.Value) Load() (val any)
 //@   pure
 //@ extern func (v *atomic.Value) Store(val any)
+
+// wrapped connections (netctx / connctx): ghost log of the wrapped I/O call and of the deadlines set on the wrapped conn
+//@ ghost global ioN mathint
+//@ ghost global ioLastN mathint
+//@ ghost global ioLastNil bool
+//@ ghost global dlRead map[mathint]mathint
+//@ ghost global dlWrite map[mathint]mathint
+//@ ghost global dlFail bool
+//@ extern func (c net.Conn) Read(b []byte) (n int, err error)
+//@   modifies b[*], ioN, ioLastN, ioLastNil
+//@   ensures 0 <= n && n <= len(b) && ioN == old(ioN) + 1 && ioLastN == n && ioLastNil == (err == nil)
+//@ extern func (c net.Conn) Write(b []byte) (n int, err error)
+//@   modifies ioN, ioLastN, ioLastNil
+//@   ensures 0 <= n && n <= len(b) && ioN == old(ioN) + 1 && ioLastN == n && ioLastNil == (err == nil)
+//@ extern func (c net.Conn) SetReadDeadline(t time.Time) (err error)
+//@   modifies dlRead, dlFail
+//@   ensures err == nil ==> dlRead == upd(old(dlRead), ref(c), t) && dlFail == old(dlFail)
+//@   ensures err != nil ==> dlFail && dlRead == old(dlRead)
+//@ extern func (c net.Conn) SetWriteDeadline(t time.Time) (err error)
+//@   modifies dlWrite, dlFail
+//@   ensures err == nil ==> dlWrite == upd(old(dlWrite), ref(c), t) && dlFail == old(dlFail)
+//@   ensures err != nil ==> dlFail && dlWrite == old(dlWrite)
+//@ extern func (c net.Conn) Close() (err error)
+//@ extern func (c context.Context) Err() (err error)
+//@   pure
+//@ extern func (c net.PacketConn) ReadFrom(b []byte) (n int, addr net.Addr, err error)
+//@   modifies b[*], ioN, ioLastN, ioLastNil
+//@   ensures 0 <= n && n <= len(b) && ioN == old(ioN) + 1 && ioLastN == n && ioLastNil == (err == nil)
+//@ extern func (c net.PacketConn) WriteTo(b []byte, addr net.Addr) (n int, err error)
+//@   modifies ioN, ioLastN, ioLastNil
+//@   ensures 0 <= n && n <= len(b) && ioN == old(ioN) + 1 && ioLastN == n && ioLastNil == (err == nil)
+//@ extern func (c net.PacketConn) SetReadDeadline(t time.Time) (err error)
+//@   modifies dlRead, dlFail
+//@   ensures err == nil ==> dlRead == upd(old(dlRead), ref(c), t) && dlFail == old(dlFail)
+//@   ensures err != nil ==> dlFail && dlRead == old(dlRead)
+//@ extern func (c net.PacketConn) SetWriteDeadline(t time.Time) (err error)
+//@   modifies dlWrite, dlFail
+//@   ensures err == nil ==> dlWrite == upd(old(dlWrite), ref(c), t) && dlFail == old(dlFail)
+//@   ensures err != nil ==> dlFail && dlWrite == old(dlWrite)
